@@ -1,10 +1,14 @@
-(* C18 driver: the access-site tables of Model/Race.v (tie (i)).
+(* C18 driver: tie (i) of C18 - the access sites of the current source against Model/Race.v Parts 4 and 5.
 
-   site  <func> <type> <field> <r|w>   is this code site annotated: the function's goroutine class and the
-                                        field's location class are in the tables AND the model performs such
-                                        an access (a read site is also covered by a modelled write)
-   call  <caller> <callee>             a static call stays in one goroutine class
-   spawn <caller> <callee>             a go statement starts an allowed class
+   graph e:<call|spawn|send>:<from>:<to> ...   the call graph of package service (kept by the driver: its one piece of state)
+   site  <func> <type> <field> <r|w>   the goroutine class reaching <func> (roots by the model's table, static calls stay in
+                                        the caller's goroutine) is unique and the model performs (class, location of the
+                                        field, role) (a read site is also covered by a modelled write)
+   spawn <from> <to> | send <from> <to>   a go statement / a closure sent on a channel starts a root the model knows
+   cap   <closure> <var> <chan|basic|ref> <type> <r|w> <imm|mut>
+                                       a closure that runs in another goroutine captures only channels, values fixed
+                                       before it exists, and the hand-overs of the model's table (by type, not by name)
+   attach-shape go=.. chan=.. sync=..  package attachment is one goroutine per connection
    accs                                the (goroutine class, location class, mode) set of the model *)
 open Drv_common
 open Race
@@ -18,24 +22,55 @@ let lname = function XConn -> "conn" | XHandles -> "handles" | XSerial -> "seria
   | XBuf -> "buf" | XRegistry -> "registry" | XSessHdr -> "sesshdr" | XMsg -> "msg" | XAct -> "act" | XReply -> "reply" | XFin -> "fin"
 
 let init () =
-  register "site" (fun args ->
-    match args with
-    | [f; ty; fld; rw] when rw = "r" || rw = "w" ->
-      if site_ok_n (codes f) (codes ty) (codes fld) (rw = "w") then "modelled" else "NOT-MODELLED"
-    | _ -> "bad-request");
-  register "call" (fun args ->
-    match args with
-    | [a; b] -> if call_ok_n (codes a) (codes b) then "ok" else "CROSSES-GOROUTINES"
-    | _ -> "bad-request");
-  register "spawn" (fun args ->
-    match args with
-    | [a; b] -> if spawn_ok_n (codes a) (codes b) then "ok" else "UNKNOWN-SPAWN"
-    | _ -> "bad-request");
   (* package attachment: one `go conn.run()` per connection, no channel, and one mention of package sync (the
      sync.Once field of BaseJT808DataHandler, a "first header" latch used by the connection's own goroutine):
      nothing is shared between goroutines, so there is nothing to model; any other shape breaks the tie *)
   register "attach-shape" (fun args ->
     if args = ["go=1"; "chan=0"; "sync=1"] then "one-goroutine-per-connection" else "SHAPE-CHANGED: a model of package attachment is due");
+  (* tie (i) by goroutine class (Model/Race.v Part 5).  The harness sends the call graph first:
+       graph e:<call|spawn|send>:<from>:<to> ...
+     the driver keeps it (the one piece of state of this oracle) and answers the following short requests with it:
+       site <func> <type> <field> <r|w>     spawn <from> <to>     send <from> <to>     cap <closure> <var> <r|w> *)
+  let graph : gedge list option ref = ref None in
+  let str l = Stdlib.String.init (Stdlib.List.length l) (fun i -> Char.chr (int_of_n (Stdlib.List.nth l i))) in
+  let cls m f = "{" ^ Stdlib.String.concat "," (Stdlib.List.map gname (cm_get f m)) ^ "}" in
+  let with_graph k = match !graph with None -> "no graph loaded (the `graph ...` request comes first)" | Some es -> k es (classes_of es) in
+  register "graph" (fun args ->
+    let es = Stdlib.List.map (fun a ->
+      match Stdlib.String.split_on_char ':' a with
+      | ["e"; k; f; t] ->
+        let kind = (match k with "call" -> KCall | "spawn" -> KSpawn | "send" -> KSendLit | _ -> failwith ("edge kind " ^ k)) in
+        { e_kind = kind; e_from = codes f; e_to = codes t }
+      | _ -> failwith ("bad item " ^ a)) args in
+    graph := Some es; "graph-loaded");
+  register "site" (fun args ->
+    match args with
+    | [f; ty; fld; rw] when rw = "r" || rw = "w" ->
+      with_graph (fun _ m ->
+        let s = { s_fun = codes f; s_type = codes ty; s_field = codes fld; s_write = (rw = "w") } in
+        match check_site m s with
+        | [] -> "modelled"
+        | PSiteNoClass _ :: _ -> "NOT-MODELLED: the function is reached from no root of the model"
+        | PSiteTwoClasses _ :: _ -> "NOT-MODELLED: the function is reached by goroutine classes " ^ cls m s.s_fun
+        | PSiteUnknownField _ :: _ -> "NOT-MODELLED: the field has no location in the model"
+        | _ -> "NOT-MODELLED: the model has no such access by " ^ cls m s.s_fun)
+    | _ -> "bad-request");
+  let edge_op kind name = register name (fun args ->
+    match args with
+    | [a; b] ->
+      with_graph (fun _ m ->
+        let e = { e_kind = kind; e_from = codes a; e_to = codes b } in
+        if check_edge m e = [] then "ok"
+        else Printf.sprintf "UNKNOWN: %s is not a root the model knows, or it is started from %s, which the model does not allow" (str e.e_to) (cls m e.e_from))
+    | _ -> "bad-request") in
+  edge_op KSpawn "spawn"; edge_op KSendLit "send";
+  register "cap" (fun args ->
+    match args with
+    | [f; _var; kind; ty; rw; imm] when (rw = "r" || rw = "w") && (imm = "imm" || imm = "mut") ->
+      let k = (match kind with "chan" -> CKChan | "basic" -> CKBasic | _ -> CKRef) in
+      if check_cap { c_fun = codes f; c_kind = k; c_type = codes ty; c_write = (rw = "w"); c_imm = (imm = "imm") } = [] then "ok"
+      else "NOT-MODELLED: a closure that runs in another goroutine shares this variable with its creator; not a hand-over the model knows"
+    | _ -> "bad-request");
   register "racescen" (fun _ -> "n/a: race-detector scenario; the model's statement is C18_race_free");
   register "accs" (fun _ ->
     "ok " ^ Stdlib.String.concat " " (Stdlib.List.sort_uniq compare
